@@ -776,7 +776,7 @@ fn sequential_part(run: &Run) -> Value {
     tri.push(json!({"ring": "GaussInt<i64>", "plan": tri_sweep::<GaussInt<i64>>(run, &ug, maxk, left, lim, wrong3)}));
     lap(run, "triangular GaussInt<i64>");
 
-    let slim = if th { 8_000_000 } else { 150_000 };
+    let slim = if th { 8_000_000 } else { 60_000 };
     let mut sch = vec![];
     sch.push(json!({"ring": "i64", "plan": schur_sweep::<i64>(run, &uz, slim)}));
     sch.push(json!({"ring": "Ratio<i64>", "plan": schur_sweep::<Ratio<i64>>(run, &uq, slim)}));
